@@ -2,6 +2,9 @@
 # Re-run every claimed quick check on the clean /repo tree so that the committed evidence comes from it.
 cd /verif
 if [ -n "$(git -C /repo status --porcelain)" ]; then echo "/repo is not clean"; exit 1; fi
+# the property files are generated from the .spec files: regenerate them all first, so that none is stale
+./check --setup > /dev/null 2>&1
+for s in coq/Properties/C*.spec; do python3 tools/gen_properties.py $(basename $s .spec) > /dev/null || echo "gen_properties failed for $s"; done
 for p in $(python3 -c "import json; print(' '.join(c['property_id'] for c in json.load(open('MANIFEST.json'))['checks']))"); do
   out=$(./check $p 2>&1 | tail -1); rc=$?
   echo "$p: $out"
